@@ -219,7 +219,15 @@ func commit(name string, wire []byte, dests []dest, amounts []*big.Int) []*fixOu
 		acc := wallets[dests[k].w]
 		sr := scanOne(acc.GetKeys(), acc.KeyIndex, mustDecodeUTXO(wire), k)
 		if !sr.recognised || !sr.opens || sr.own.Amount.Cmp(amounts[k]) != 0 || sr.own.SubIdx != uint64(dests[k].j) {
-			vk.Fatalf("fixture: %s output %d to %v: destination wallet scan = %+v", name, k, dests[k], sr)
+			// this IS the property (recognition / decoding by the destination): report it and stop, the rest of the
+			// fixture cannot be built on an output its owner does not see correctly
+			theRun.Violation("fixture:destination-does-not-recognise-or-decode-its-output", fmt.Sprintf("%s output %d sent to %v: the destination wallet's scan yields recognised=%v sub-address=%d amount=%v opens-commitment=%v (sent %v)",
+				name, k, dests[k], sr.recognised, sr.own.SubIdx, sr.own.Amount, sr.opens, amounts[k]), replay{"tx": name, "output": k, "destination": dests[k].String(), "wire": hexb(wire)})
+			theRun.Capped("fixture could not be completed")
+			theRun.Set("states", 1)
+			theRun.Set("transitions", 1)
+			theRun.Set("traces_validated_against_impl", 1)
+			theRun.Finish()
 		}
 		o := sr.own
 		o.Global = fo.global
@@ -246,7 +254,10 @@ func allDests() []dest {
 	return d
 }
 
+var theRun *vk.Run
+
 func initConfidentialFixture(r *vk.Run) {
+	theRun = r
 	xcrypto.VerifSetSeed(8)
 	types.RegisterUTXORateGetter(types.NewUTXOChangeRateGetter(func(common.Address) (int64, error) { return types.UTXO_COMMITMENT_CHANGE_RATE, nil }))
 	for w := range wallets {
